@@ -29,15 +29,15 @@ Ltac val H x :=
     let sl' := fresh "sl" in destruct (attr_value n x S H sl) as [sl' ->]; rewrite run_after_quote end; norm.
 
 Theorem nav_xhtml_balanced title s : fmt s = FX -> Forall entry_ok (lox_toc s) -> textual (X.param "document-title" s) ->
-  no_c 62 (lang s) = true -> textual title -> balanced_chunk (fst (X.nav_xhtml title s)).
-Proof. intros Hf Hok Hdt Hlang Htitle. unfold X.nav_xhtml.
+  textual title -> balanced_chunk (fst (X.nav_xhtml title s)).
+Proof. intros Hf Hok Hdt Htitle. pose proof (html_escape_no_gt (lang s)) as Hlang. unfold X.nav_xhtml.
   pose proof (fun t s1 => toc_string_balanced X.DNav (mkPo [] [] []) s t s1 Hf Hok Hdt) as Hbal.
   destruct (X.toc_string X.DNav (mkPo [] [] []) s) as [t s1]. cbn [fst]. intro stk.
   assert (Ht : balanced_chunk (match title with [] => [] | _ => R "    <title>" ++ title ++ R "</title>" ++ NLs end)).
   { intro S. destruct title as [|c0 r0] eqn:E; [reflexivity|]. rewrite <- E in *. norm. rewrite Htitle. norm. reflexivity. }
   assert (Hx : balanced_chunk (match t with Some x => x | None => [] end)).
   { destruct t as [x|]; [apply (Hbal x s1 eq_refl)|intro; reflexivity]. }
-  norm. val Hlang (lang s). rewrite Ht. norm. rewrite Hx. norm. reflexivity.
+  norm. val Hlang (html_escape (lang s)). rewrite Ht. norm. rewrite Hx. norm. reflexivity.
 Qed.
 
 Theorem toc_ncx_balanced title s : fmt s = FX -> Forall entry_ok (lox_toc s) -> textual (X.param "document-title" s) ->
@@ -57,21 +57,21 @@ Definition ref_ok (s : st) (e : lox) : Prop := no_c 62 (X.get_id s e) = true /\ 
 Lemma media_type_no_gt im mt : X.media_type im = Some mt -> no_c 62 mt = true.
 Proof. unfold X.media_type. intro E. repeat (match type of E with (if ?c then _ else _) = _ => destruct c end; [injection E as <-; reflexivity|]). discriminate. Qed.
 
-Theorem content_opf_balanced title s : textual title -> textual (X.param "epub-uuid" s) -> textual (lang s) -> textual (X.param "document-author" s) ->
-  Forall (ref_ok s) (X.chap_entries s) -> Forall (fun im => no_c 62 (X.base_name im []) = true) (images s) ->
-  balanced_chunk (fst (X.content_opf title s)).
-Proof. intros Htitle Huuid Hlang Hauth Hrefs Himgs. unfold X.content_opf. cbv zeta.
+Theorem content_opf_balanced title s : textual title -> textual (X.param "epub-uuid" s) -> textual (X.param "document-author" s) ->
+  Forall (ref_ok s) (X.chap_entries s) -> balanced_chunk (fst (X.content_opf title s)).
+Proof. intros Htitle Huuid Hauth Hrefs. pose proof (html_escape_textual (lang s)) as Hlang. unfold X.content_opf. cbv zeta.
   (* the images: each adds a self-closing item; the state only gathers diagnostics *)
   set (step := fun '(acc, s0) im => _).
-  assert (Hfold : forall l a, Forall (fun im => no_c 62 (X.base_name im []) = true) l -> balanced_chunk (fst a) ->
+  assert (Hfold : forall l a, balanced_chunk (fst a) ->
             balanced_chunk (fst (fold_left step l a)) /\ snd (fold_left step l a) ~~ snd a).
-  { induction l as [|im r IH]; intros [acc s0] Hl Hacc; [split; [exact Hacc|reflexivity]|]. inversion Hl as [|x y Hx Hy]; subst. cbn [fold_left]. cbn [fst snd] in *.
+  { induction l as [|im r IH]; intros [acc s0] Hacc; [split; [exact Hacc|reflexivity]|]. cbn [fold_left]. cbn [fst snd] in *.
+    pose proof (html_escape_no_gt (X.base_name im [])) as Hx.
     remember (step (acc, s0) im) as r0 eqn:Er. unfold step in Er. destruct (X.media_type im) as [mt|] eqn:Emt; subst r0.
-    - apply IH; [exact Hy|]. intro S. pose proof (media_type_no_gt im mt Emt) as Hmt. cbn [fst].
-      norm. rewrite Hacc. norm. val Hx (X.base_name im []). val Hx (X.base_name im []). val Hmt mt. reflexivity.
-    - destruct (IH (acc, err "unknown image format" s0) Hy Hacc) as [H1 H2]. split; [exact H1|]. eapply eqd_trans; [exact H2|apply err_eqd]. }
+    - apply IH. intro S. pose proof (media_type_no_gt im mt Emt) as Hmt. cbn [fst].
+      norm. rewrite Hacc. norm. val Hx (html_escape (X.base_name im [])). val Hx (html_escape (X.base_name im [])). val Hmt mt. reflexivity.
+    - destruct (IH (acc, err "unknown image format" s0) Hacc) as [H1 H2]. split; [exact H1|]. eapply eqd_trans; [exact H2|apply err_eqd]. }
   match goal with |- context [fold_left step (images s) ?init] =>
-    pose proof (Hfold (images s) init Himgs (fun _ => eq_refl)) as Hf2; destruct (fold_left step (images s) init) as [imgs s1] end.
+    pose proof (Hfold (images s) init (fun _ => eq_refl)) as Hf2; destruct (fold_left step (images s) init) as [imgs s1] end.
   cbn [fst snd] in Hf2. destruct Hf2 as [Himg Es1]. clear Hfold.
   assert (Hsubj : balanced_chunk (match html_escape (X.param "epub-subject" s) with [] => [] | _ => R "<dc:subject id=""epub-subject-1"">" ++ html_escape (X.param "epub-subject" s) ++ R "</dc:subject>" ++ NLs end)).
   { intro S. destruct (html_escape (X.param "epub-subject" s)) as [|c0 r0] eqn:E; [reflexivity|]. rewrite <- E. norm. rewrite html_escape_textual. norm. reflexivity. }
